@@ -725,3 +725,205 @@ Section Degrees.
       rewrite Kout_single. reflexivity.
   Qed.
 End Degrees.
+
+(* ---------------- the numeric invariant L3 and the potential ---------------- *)
+Lemma upd_nth_set_nth : forall {X} site i (f : X -> X) l l' x,
+  nth_error l i = Some x -> upd_nth site i f l = Ok l' -> set_nth i (f x) l = Some l'.
+Proof.
+  intros X site i f l l' x Hx H. unfold upd_nth in H. rewrite Hx in H. cbn [unwrap_at bind] in H.
+  apply unwrap_at_ok in H. exact H.
+Qed.
+
+Lemma set_nth_upd_nth : forall {X} site i (f : X -> X) l l' x,
+  nth_error l i = Some x -> set_nth i (f x) l = Some l' -> upd_nth site i f l = Ok l'.
+Proof. intros X site i f l l' x Hx H. unfold upd_nth. rewrite Hx. cbn [unwrap_at bind]. rewrite H. reflexivity. Qed.
+
+Section NumVisit.
+  Variable g : lgraph.
+  Hypothesis W : WFn g.
+  Hypothesis Hmulti : multi (sp g) = false.
+  Hypothesis Hreal : forall e, In e (get_all_edges g) -> exists z, ew e = Some z.
+  Variable n : nat.
+  Hypothesis Hnames : forall u, In u (names g) <-> In u (seq 0 n).
+  Hypothesis Hnn : forall w, In w (wedges g) -> 0 <= ww w.
+  Variables m res : Q.
+  Hypothesis Hm : 0 <= m.
+  Hypothesis Hres : 0 <= res.
+
+  Notation es := (wedges g).
+  Notation nms := (names g).
+  Notation Kf := (K_of Nat.eqb es).
+  Notation Kinf := (Kin_of Nat.eqb es).
+  Notation Koutf := (Kout_of Nat.eqb es).
+  Notation btw := (between Nat.eqb es).
+
+  Record NInv (I : list (list nat)) (di : deginfo) : Prop := mkNI {
+    ni_len : length I = n;
+    ni_u : directed (sp g) = false ->
+           (forall u, In u nms -> exists q, lookup Nat.eqb u (degrees di) = Some q /\ q == Kf [u]) /\
+           tracks Kf (stot di) I;
+    ni_d : directed (sp g) = true ->
+           (forall u, In u nms -> exists q, lookup Nat.eqb u (in_degrees di) = Some q /\ q == Kinf [u]) /\
+           (forall u, In u nms -> exists q, lookup Nat.eqb u (out_degrees di) = Some q /\ q == Koutf [u]) /\
+           tracks Kinf (stot_in di) I /\ tracks Koutf (stot_out di) I
+  }.
+
+  (* the modularity-shaped potential with an arbitrary normalising constant m *)
+  Definition term_m (dirb : bool) (c : list nat) : Q :=
+    if dirb then L_of Nat.eqb es c / m - res * (Koutf c * Kinf c) / (m * m)
+    else L_of Nat.eqb es c / m - res * ((Kf c / (2 * m)) * (Kf c / (2 * m))).
+  Definition Phi (dirb : bool) (I : list (list nat)) : Q := qsum (map (term_m dirb) I).
+
+  Lemma term_m_ext : forall dirb X Y, (forall x, In x X <-> In x Y) -> term_m dirb X == term_m dirb Y.
+  Proof.
+    intros dirb X Y H. unfold term_m. destruct dirb.
+    - rewrite (L_ext es X Y H), (Kout_ext es X Y H), (Kin_ext es X Y H). reflexivity.
+    - rewrite (L_ext es X Y H), (K_ext es X Y H). reflexivity.
+  Qed.
+
+  (* the numbers the code compares, on the edge multiset *)
+  Definition gU (u : nat) (X : list nat) : Q := 2 * btw u X - res * (Kf X * Kf [u]) / m.
+  Definition gD (u : nat) (X : list nat) : Q := btw u X - res * (Koutf [u] * Kinf X + Kinf [u] * Koutf X) / m.
+
+  Lemma move_terms_u : forall u C D, ~ m == 0 -> ~ In u C -> ~ In u D ->
+    (term_m false (u :: C) + term_m false D) - (term_m false C + term_m false (u :: D))
+    == (gU u C - gU u D) / (2 * m).
+  Proof.
+    intros u C D Hm0 HC HD. unfold term_m, gU.
+    rewrite (L_of_cons Nat.eqb Nat.eqb_eq es u C HC), (L_of_cons Nat.eqb Nat.eqb_eq es u D HD).
+    rewrite (K_of_cons Nat.eqb Nat.eqb_eq es u C HC), (K_of_cons Nat.eqb Nat.eqb_eq es u D HD).
+    field. exact Hm0.
+  Qed.
+
+  Lemma move_terms_d : forall u C D, ~ m == 0 -> ~ In u C -> ~ In u D ->
+    (term_m true (u :: C) + term_m true D) - (term_m true C + term_m true (u :: D))
+    == (gD u C - gD u D) / m.
+  Proof.
+    intros u C D Hm0 HC HD. unfold term_m, gD.
+    rewrite (L_of_cons Nat.eqb Nat.eqb_eq es u C HC), (L_of_cons Nat.eqb Nat.eqb_eq es u D HD).
+    rewrite (Kout_of_cons Nat.eqb Nat.eqb_eq es u C HC), (Kout_of_cons Nat.eqb Nat.eqb_eq es u D HD).
+    rewrite (Kin_of_cons Nat.eqb Nat.eqb_eq es u C HC), (Kin_of_cons Nat.eqb Nat.eqb_eq es u D HD).
+    field. exact Hm0.
+  Qed.
+
+  Lemma Phi_move : forall dirb I i1 i2 own bc iO iB u, bc <> own ->
+    nth_error I own = Some iO -> nth_error I bc = Some iB -> In u iO -> ~ In u iB ->
+    (forall j, nth_error i1 j = if Nat.eqb j own then Some (set_remove u iO) else nth_error I j) ->
+    (forall j, nth_error i2 j = if Nat.eqb j bc then Some (set_add Nat.eqb u iB) else nth_error i1 j) ->
+    Phi dirb i2 - Phi dirb I ==
+    (term_m dirb (u :: iB) + term_m dirb (set_remove u iO)) - (term_m dirb iB + term_m dirb (u :: set_remove u iO)).
+  Proof.
+    intros dirb I i1 i2 own bc iO iB u Hne HO HB HuO HuB N1 N2. unfold Phi.
+    assert (HB1 : nth_error i1 bc = Some iB).
+    { rewrite N1. rewrite (proj2 (Nat.eqb_neq bc own) Hne). exact HB. }
+    rewrite (qsum_map_upd (term_m dirb) i1 i2 bc iB (set_add Nat.eqb u iB) HB1 N2).
+    rewrite (qsum_map_upd (term_m dirb) I i1 own iO (set_remove u iO) HO N1).
+    assert (E1 : term_m dirb (set_add Nat.eqb u iB) == term_m dirb (u :: iB)).
+    { apply term_m_ext. intro x. rewrite In_set_add_nat. cbn [In]. intuition. }
+    assert (E2 : term_m dirb iO == term_m dirb (u :: set_remove u iO)).
+    { apply term_m_ext. intro x. cbn [In]. rewrite In_set_remove. destruct (Nat.eq_dec x u); intuition congruence. }
+    rewrite E1, E2. ring.
+  Qed.
+
+  Lemma K_nonneg : forall X, 0 <= Kf X.
+  Proof. intro X. unfold K_of, Kout_of, Kin_of. pose proof (wsel_nonneg (fun e => membN (wu e) X) es Hnn).
+         pose proof (wsel_nonneg (fun e => membN (wv e) X) es Hnn). lra. Qed.
+  Lemma Kout_nonneg : forall X, 0 <= Koutf X.
+  Proof. intro X. apply (wsel_nonneg _ es Hnn). Qed.
+  Lemma Kin_nonneg : forall X, 0 <= Kinf X.
+  Proof. intro X. apply (wsel_nonneg _ es Hnn). Qed.
+
+  (* ---- subtracting / adding the degree of the visited node ---- *)
+  Lemma subtract_ok : forall I di own u iO I1,
+    NInv I di -> nth_error I own = Some iO -> In u iO -> In u nms ->
+    set_nth own (set_remove u iO) I = Some I1 ->
+    exists di1, subtract_degree_from_best_com own u di (directed (sp g)) = Ok di1 /\ NInv I1 di1 /\
+      (directed (sp g) = false -> degree di1 == Kf [u]) /\
+      (directed (sp g) = true -> in_degree di1 == Kinf [u] /\ out_degree di1 == Koutf [u]).
+  Proof.
+    intros I di own u iO I1 [Hlen HU HD] HO Hu Hun HI1.
+    assert (LI1 : length I1 = length I) by (eapply set_nth_length; exact HI1).
+    assert (NI1 : forall j, nth_error I1 j = if Nat.eqb j own then Some (set_remove u iO) else nth_error I j)
+      by (intro j; eapply set_nth_nth; exact HI1).
+    unfold subtract_degree_from_best_com. destruct (directed (sp g)) eqn:Hd.
+    - destruct (HD eq_refl) as [Hin [Hout [Tin Tout]]].
+      destruct (Hin u Hun) as [di_ [Ei Hi]]. destruct (Hout u Hun) as [do_ [Eo Ho]].
+      rewrite Ei, Eo. cbn [unwrap_at bind].
+      destruct (tracks_get _ _ _ _ _ Tin HO) as [si [Esi Hsi]]. destruct (tracks_get _ _ _ _ _ Tout HO) as [so [Eso Hso]].
+      destruct (vec_add_ok "louvain.rs:stot_in index" (stot_in di) own (- di_) si Esi) as [vi [Evi [Lvi Nvi]]].
+      destruct (vec_add_ok "louvain.rs:stot_out index" (stot_out di) own (- do_) so Eso) as [vo [Evo [Lvo Nvo]]].
+      rewrite Evi, Evo. cbn [bind]. eexists. split; [reflexivity|]. split; [|split; [intro HH; congruence|]].
+      + constructor; cbn [degrees stot in_degrees out_degrees stot_in stot_out]; [lia | intro HH; congruence|].
+        intros _. split; [exact Hin|]. split; [exact Hout|]. split.
+        * eapply (tracks_update Kinf (stot_in di) I vi I1 own si); try eassumption.
+          rewrite Qred_correct. rewrite (additive_remove Kinf u iO (additive_Kin es) Hu) in Hsi. lra.
+        * eapply (tracks_update Koutf (stot_out di) I vo I1 own so); try eassumption.
+          rewrite Qred_correct. rewrite (additive_remove Koutf u iO (additive_Kout es) Hu) in Hso. lra.
+      + intros _. cbn [in_degree out_degree]. split; assumption.
+    - destruct (HU eq_refl) as [Hdeg Tst]. destruct (Hdeg u Hun) as [d [Ed Hdq]]. rewrite Ed. cbn [unwrap_at bind].
+      destruct (tracks_get _ _ _ _ _ Tst HO) as [so [Eso Hso]].
+      destruct (vec_add_ok "louvain.rs:stot index" (stot di) own (- d) so Eso) as [vs [Evs [Lvs Nvs]]].
+      rewrite Evs. cbn [bind]. eexists. split; [reflexivity|]. split; [|split; [|intro HH; congruence]].
+      + constructor; cbn [degrees stot in_degrees out_degrees stot_in stot_out]; [lia | | intro HH; congruence].
+        intros _. split; [exact Hdeg|].
+        eapply (tracks_update Kf (stot di) I vs I1 own so); try eassumption.
+        rewrite Qred_correct. rewrite (additive_remove Kf u iO (additive_K es) Hu) in Hso. lra.
+      + intros _. cbn [degree]. exact Hdq.
+  Qed.
+
+  Lemma add_ok : forall I1 di1 bc u l I2,
+    NInv I1 di1 -> nth_error I1 bc = Some l -> ~ In u l ->
+    set_nth bc (set_add Nat.eqb u l) I1 = Some I2 ->
+    (directed (sp g) = false -> degree di1 == Kf [u]) ->
+    (directed (sp g) = true -> in_degree di1 == Kinf [u] /\ out_degree di1 == Koutf [u]) ->
+    exists di2, add_degree_to_best_com bc di1 (directed (sp g)) = Ok di2 /\ NInv I2 di2.
+  Proof.
+    intros I1 di1 bc u l I2 [Hlen HU HD] HB Hu HI2 Hdu Hdd.
+    assert (LI2 : length I2 = length I1) by (eapply set_nth_length; exact HI2).
+    assert (NI2 : forall j, nth_error I2 j = if Nat.eqb j bc then Some (set_add Nat.eqb u l) else nth_error I1 j)
+      by (intro j; eapply set_nth_nth; exact HI2).
+    unfold add_degree_to_best_com. destruct (directed (sp g)) eqn:Hd.
+    - destruct (HD eq_refl) as [Hin [Hout [Tin Tout]]]. destruct (Hdd eq_refl) as [Hi Ho].
+      destruct (tracks_get _ _ _ _ _ Tin HB) as [si [Esi Hsi]]. destruct (tracks_get _ _ _ _ _ Tout HB) as [so [Eso Hso]].
+      destruct (vec_add_ok "louvain.rs:stot_in index" (stot_in di1) bc (in_degree di1) si Esi) as [vi [Evi [Lvi Nvi]]].
+      destruct (vec_add_ok "louvain.rs:stot_out index" (stot_out di1) bc (out_degree di1) so Eso) as [vo [Evo [Lvo Nvo]]].
+      rewrite Evi, Evo. cbn [bind]. eexists. split; [reflexivity|].
+      constructor; cbn [degrees stot in_degrees out_degrees stot_in stot_out]; [lia | intro HH; congruence|].
+      intros _. split; [exact Hin|]. split; [exact Hout|]. split.
+      + eapply (tracks_update Kinf (stot_in di1) I1 vi I2 bc si); try eassumption.
+        rewrite Qred_correct, (additive_add Kinf u l (additive_Kin es) Hu). lra.
+      + eapply (tracks_update Koutf (stot_out di1) I1 vo I2 bc so); try eassumption.
+        rewrite Qred_correct, (additive_add Koutf u l (additive_Kout es) Hu). lra.
+    - destruct (HU eq_refl) as [Hdeg Tst]. specialize (Hdu eq_refl).
+      destruct (tracks_get _ _ _ _ _ Tst HB) as [so [Eso Hso]].
+      destruct (vec_add_ok "louvain.rs:stot index" (stot di1) bc (degree di1) so Eso) as [vs [Evs [Lvs Nvs]]].
+      rewrite Evs. cbn [bind]. eexists. split; [reflexivity|].
+      constructor; cbn [degrees stot in_degrees out_degrees stot_in stot_out]; [lia | | intro HH; congruence].
+      intros _. split; [exact Hdeg|].
+      eapply (tracks_update Kf (stot di1) I1 vs I2 bc so); try eassumption.
+      rewrite Qred_correct, (additive_add Kf u l (additive_K es) Hu). lra.
+  Qed.
+
+  (* NInv only looks at the membership of the communities *)
+  Lemma tracks_ext : forall F v I I', additive F -> tracks F v I -> length I' = length I ->
+    (forall c l l', nth_error I c = Some l -> nth_error I' c = Some l' -> forall x, In x l <-> In x l') ->
+    tracks F v I'.
+  Proof.
+    intros F v I I' [Hext _] [Hlen H] HL Hmem. split; [lia|].
+    intros c st l' Hc Hl'. destruct (nth_error I c) as [l|] eqn:El.
+    - rewrite (H c st l Hc El). apply Hext. apply (Hmem c l l' El Hl').
+    - apply nth_error_None in El. assert ((c < length I')%nat) by (apply nth_error_Some; congruence). lia.
+  Qed.
+
+  Lemma NInv_ext : forall I I' di, NInv I di -> length I' = length I ->
+    (forall c l l', nth_error I c = Some l -> nth_error I' c = Some l' -> forall x, In x l <-> In x l') ->
+    NInv I' di.
+  Proof.
+    intros I I' di [Hlen HU HD] HL Hmem. constructor; [lia | |].
+    - intro Hd. destruct (HU Hd) as [H1 H2]. split; [exact H1|].
+      apply (tracks_ext Kf _ I I' (additive_K es) H2 HL Hmem).
+    - intro Hd. destruct (HD Hd) as [H1 [H2 [H3 H4]]]. split; [exact H1|]. split; [exact H2|]. split.
+      + apply (tracks_ext Kinf _ I I' (additive_Kin es) H3 HL Hmem).
+      + apply (tracks_ext Koutf _ I I' (additive_Kout es) H4 HL Hmem).
+  Qed.
+End NumVisit.
